@@ -139,8 +139,10 @@ def expand_optionals(types: Dict[str, Any]) -> List[Dict[str, Any]]:
     return combos
 
 
-def run_operation(prog: Program, op: str, I: Optional[Interp] = None, reply_minlen: Optional[Dict[int, int]] = None) -> Tuple[Interp, List[Outcome], FunctionInfo]:
+def run_operation(prog: Program, op: str, I: Optional[Interp] = None, reply_minlen: Optional[Dict[int, int]] = None, retype: Optional[Dict[str, Any]] = None) -> Tuple[Interp, List[Outcome], FunctionInfo]:
     clsname, types = OPERATIONS[op]
+    if retype:
+        types = {**types, **retype}      # the same operation with an argument given in another accepted form
     I = I or make_interp(prog)
     ci = prog.cls(f"{API_MOD}:{clsname}")
     fi = ci.find_method(op)
@@ -149,6 +151,8 @@ def run_operation(prog: Program, op: str, I: Optional[Interp] = None, reply_minl
     outs: List[Outcome] = []
     for combo in expand_optionals(types):
         st = I.new_state()
+        for k_, n_ in (reply_minlen or {}).items():
+            st.minlen[("sym", f"reply#{k_}", "bytes")] = n_      # a premise of the calling rule: the k-th reply read has at least n bytes
         selfv = api_self(I, st, ci)
         args: Dict[str, Term] = {fi.params[0]: selfv}
         for name, typ in combo.items():
